@@ -7,7 +7,8 @@
 // Command line
 //   mem_sweep [--throw=oom|bad_alloc] [--release] <scenario> <xsl> <xml> count
 //   mem_sweep [--throw=oom|bad_alloc] [--release] <scenario> <xsl> <xml> sweep <single|persist> <k-list>
-//     scenario : ctor | compile | parse | transform | transform_compiled | fail_message | fail_xpath | two
+//     scenario : ctor | compile | parse | transform | transform_compiled | fail_message | fail_xpath | two | params
+//                (params = transform with number / expression top-level parameters set and never cleared)
 //                (fail_message / fail_xpath run the same code as `transform`; the stylesheet decides)
 //     k-list   : comma separated indices and a-b ranges (1-based allocation ordinals), e.g. 1-40,77,500-520
 //     --throw  : what allocate() throws on the injected failure; default `oom` =
@@ -364,11 +365,30 @@ public:
         const size_t sz = it->second.size;
         m_live.erase(it);
         if (m_release) std::free(p);
-        else { m_freed.insert(p); MS_POISON(p, sz == 0 ? 1 : sz); }
+        else {
+            m_freed.insert(p);
+            // a quarantined block is never handed out again: any byte that changes afterwards is a write after release
+            m_freedSize[p] = sz;
+            if (sz != 0) std::memset(p, 0xDD, sz);
+            MS_POISON(p, sz == 0 ? 1 : sz);
+        }
         (void)sz;
     }
 
     virtual xercesc::MemoryManager* getExceptionMemoryManager() { return this; }
+
+    // number of quarantined blocks written to after they were released (not under ASan: the poisoned block reports itself)
+    unsigned long modifiedAfterRelease() const
+    {
+        unsigned long n = 0;
+#if !MS_ASAN
+        for (std::unordered_map<void*, size_t>::const_iterator i = m_freedSize.begin(); i != m_freedSize.end(); ++i) {
+            const unsigned char* b = static_cast<const unsigned char*>(i->first);
+            for (size_t k = 0; k < i->second; ++k) if (b[k] != 0xDD) { ++n; break; }
+        }
+#endif
+        return n;
+    }
 
     // --- control
     void arm(InjectMode mode, unsigned long k) { m_mode = mode; m_failAt = k; m_armed = true; m_fired = false; m_failing = false; }
@@ -389,6 +409,7 @@ public:
     std::vector<std::string>*   m_log;      // count mode with MEMSWEEP_TRACE=1: one line per allocation
     std::unordered_map<void*, Block>    m_live;
     std::unordered_set<void*>           m_freed;
+    std::unordered_map<void*, size_t>   m_freedSize;
     std::set<std::string>               m_handlerSigs;
     std::map<std::string, DtorSite>     m_dtorSites;
     std::string                         m_firstBadFree;
@@ -403,7 +424,7 @@ struct ApiCall                      // marks the extent of one top-level API cal
 
 // ------------------------------------------------------------------------------------------------
 // scenarios
-enum Scenario { SC_CTOR, SC_COMPILE, SC_PARSE, SC_TRANSFORM, SC_TRANSFORM_COMPILED, SC_TWO };
+enum Scenario { SC_CTOR, SC_COMPILE, SC_PARSE, SC_TRANSFORM, SC_TRANSFORM_COMPILED, SC_TWO, SC_PARAMS };
 
 struct RunResult
 {
@@ -436,6 +457,13 @@ static int scenarioCalls(Scenario sc, XalanTransformer& xf, CountingMM& mm, std:
         { ApiCall a(mm); rc = xf.parseSource(xml, ps); }
         if (rc == 0) { ApiCall a(mm); rc = xf.destroyParsedSource(ps); }
         break; }
+    case SC_PARAMS:
+        // top-level parameters held as XObjects (number) and as expressions, NOT cleared before the transformer
+        // is destroyed: the holders refer into the transformer's own XObject factory
+        { ApiCall a(mm); xf.setStylesheetParam(xalanc::XalanDOMString("pnum", mm), 42.5); }
+        { ApiCall a(mm); xf.setStylesheetParam(xalanc::XalanDOMString("pexpr", mm), xalanc::XalanDOMString("'text'", mm)); }
+        { ApiCall a(mm); xf.setStylesheetParam(xalanc::XalanDOMString("pnum2", mm), -1.0); }
+        // fall through
     case SC_TRANSFORM:
     case SC_TWO: {
         const int rounds = sc == SC_TWO ? 2 : 1;
@@ -542,6 +570,7 @@ static bool parseScenario(const char* s, Scenario& sc)
     else if (n == "transform" || n == "fail_message" || n == "fail_xpath") sc = SC_TRANSFORM;
     else if (n == "transform_compiled") sc = SC_TRANSFORM_COMPILED;
     else if (n == "two") sc = SC_TWO;
+    else if (n == "params") sc = SC_PARAMS;
     else return false;
     return true;
 }
@@ -661,9 +690,9 @@ int main(int argc, char** argv)
         mm.m_log = 0;
         for (std::vector<std::string>::const_iterator i = allocLog.begin(); i != allocLog.end(); ++i)
             std::printf("%s\n", i->c_str());
-        std::printf("N=%lu outstanding=%lu foreign=%lu double=%lu handler_allocs=%lu status=%d nullfree=%lu bytes=%lu via=%s outlen=%lu\n",
+        std::printf("N=%lu outstanding=%lu foreign=%lu double=%lu handler_allocs=%lu status=%d nullfree=%lu bytes=%lu via=%s outlen=%lu written_after_release=%lu\n",
                     mm.m_count, (unsigned long)mm.m_live.size(), mm.m_foreign, mm.m_double, mm.m_handlerAllocs,
-                    r.status, mm.m_nullFree, mm.m_bytes, r.via.c_str(), (unsigned long)r.output.size());
+                    r.status, mm.m_nullFree, mm.m_bytes, r.via.c_str(), (unsigned long)r.output.size(), mm.modifiedAfterRelease());
         for (std::set<std::string>::const_iterator i = mm.m_handlerSigs.begin(); i != mm.m_handlerSigs.end(); ++i)
             std::printf("HANDLER %s\n", i->c_str());
         for (std::map<std::string, CountingMM::DtorSite>::const_iterator i = mm.m_dtorSites.begin(); i != mm.m_dtorSites.end(); ++i)
